@@ -15,6 +15,13 @@ observation of a transaction is
   database facts show; nothing may be delivered for a rolled-back transaction; every registered commit
   action, every registered pre-commit action and the tx-complete listener run exactly once per committed
   transaction - wherever they were registered, however the function nests - and not for a rolled-back one;
+* second strengthening (seeded C08-w2-1..3): a REGS section of the case line registers, per history, listeners that name
+  SEVERAL change types in one Add*Listener call (every style, every order, sync / async entries; deliveries LM:<k>:...):
+  exactly one notification per committed change whose kind the registration names (Properties/C08.v
+  listener_multi_type_invoked_exactly_once); histories whose caller keeps ONE MutateContext for all transactions, also
+  after a rollback (pseudo veto @ctx), and Db.Batch calls issued together with failing Db.Batch calls that bbolt
+  coalesces, so that the innocent function is rolled back and re-run with its context (pseudo veto @cobatch): the
+  committed transaction still announces every change once; wirings with three child stores under one parent;
 * correspondence: the same line is printed by the extracted machine (Store/Events.v run_tx_v,
   delivered_to; Store/TxHooks.v db_update for the program) and compared token by token (results, events, deliveries incl. state digests, hooks).
 """
@@ -26,7 +33,7 @@ import storefam
 import vlib
 
 PID = "C08"
-FILES = ["theories/Properties/C08.v", "theories/Examples/C08Examples.v"]
+FILES = ["theories/Properties/C08.v", "theories/Examples/C08Examples.v", "theories/Examples/C08Wirings.v"]
 
 FILTER_STYLES = ["ts", "ta", "fs", "fa", "us", "ua", "is", "ia"]
 STATE_STYLES = ("ts", "ta", "fs", "fa", "us", "ua", "c", "uc")
@@ -75,16 +82,62 @@ def parse_tx(toks):
 
 
 def split_mode(case):
-    """-> (mode, hook programs or None, rest of the case line)"""
+    """-> (mode, hook programs or None, multi-type registrations, rest of the case line)"""
     mode = "upd"
     progs = None
+    regs = []
     if case.startswith("MODE "):
         _, mode, case = case.split(" ", 2)
     if case.startswith("HOOKS "):
         _, n, case = case.split(" ", 2)
         parts = case.split(" ", int(n))
         progs, case = parts[:int(n)], parts[int(n)]
-    return mode, progs, case
+    if case.startswith("REGS "):
+        _, n, case = case.split(" ", 2)
+        parts = case.split(" ", int(n))
+        regs, case = [tuple(r.split(":")) for r in parts[:int(n)]], parts[int(n)]
+    return mode, progs, regs, case
+
+
+# ------------------------------------------------------------------ registrations naming several change types
+STYLE_CALL = dict(t="AddEntityEventListener", f="AddEntityEventListenerF", u="AddListener", i="AddEntityIdListener")
+TYPE_NAME = dict(C="EntityCreated", U="EntityUpdated", D="EntityDeleted", c="EntityCreatedAsync", u="EntityUpdatedAsync",
+                 d="EntityDeletedAsync")
+CHANGE_WORD = dict(C="create", U="update", D="delete")
+
+
+def reg_text(reg):
+    style, store, types = reg
+    return "%s.%s(listener, %s)" % (store, STYLE_CALL.get(style, style), ", ".join(TYPE_NAME[t] for t in types))
+
+
+def pseudo(tx, name):
+    """the id (hex) of the pseudo veto [name] of the transaction, None when it has none"""
+    for s, _, i in tx["vetoes"]:
+        if s == name:
+            return i
+    return None
+
+
+def ctx_note(txs_parsed, io, k):
+    """how the transaction's mutate context was used before - part of the violation text"""
+    tx = txs_parsed[k]
+    if pseudo(tx, "@ctx") is not None:
+        prior = [j for j in range(k) if pseudo(txs_parsed[j], "@ctx") is not None]
+        rolled = [j for j in prior if not io[j]["commit"] and "ok" in io[j]["results"]]
+        if rolled:
+            return (" [the transaction ran with the MutateContext the caller keeps for all its transactions; transaction %d ran with it, "
+                    "performed store changes and was rolled back]" % rolled[-1])
+        return " [the transaction ran with the MutateContext the caller keeps for all its transactions (used by %d earlier ones)]" % len(prior)
+    co = pseudo(tx, "@cobatch")
+    if co is not None:
+        try:
+            partners = bytes.fromhex(co).decode()
+        except ValueError:
+            partners = co
+        return (" [Db.Batch call issued together with %d failing Db.Batch calls (%s; lower case = enqueued after it): bbolt runs them in one "
+                "transaction, rolls it back when a partner fails and re-runs the innocent function with the same context]" % (len(partners), partners))
+    return ""
 
 
 # ------------------------------------------------------------------ hook programs (alphabet: store_c08.go c08Exec)
@@ -265,14 +318,17 @@ def expected_events(sch, tx, pre, post):
     return exp
 
 
-def oracle(sch, mode, progs, txs, io):
+def oracle(sch, mode, progs, regs, txs, io):
     out = []
     prev = Facts([])
+    parsed = [parse_tx(t) for t in txs]
     for k, (ttoks, a) in enumerate(zip(txs, io)):
-        tx = parse_tx(ttoks)
+        tx = parsed[k]
         prog = progs[k] if progs and k < len(progs) else default_prog(tx)
         post = Facts(a["facts"])
-        ls = [t for t in a["other"] if t.startswith("LS:")]
+        lm = [t for t in a["other"] if t.startswith("LM:")]
+        ls = [t for t in a["other"] if t.startswith("LS:")] + (lm if not a["commit"] else [])
+        note = ctx_note(parsed, io, k)
         late = [t for t in a["other"] if t.startswith("LATE:")]
         if "ASYNC-TIMEOUT" in a["other"]:
             out.append(("C08:async-timeout", "asynchronous listeners / commit actions did not arrive within 10 s", k))
@@ -280,7 +336,7 @@ def oracle(sch, mode, progs, txs, io):
             out.append(("C08:late-delivery", "deliveries after the transaction's observation: %s" % late[:3], k))
         if not a["commit"]:
             if a["events"] or ls:
-                out.append(("C08:events-after-rollback", "listeners ran for a rolled-back transaction: %s" % (a["events"] + ls)[:4], k))
+                out.append(("C08:events-after-rollback", "listeners ran for a rolled-back transaction: %s%s" % ((a["events"] + ls)[:4], note), k))
             out += [(key, desc, k) for key, desc in hook_oracle(mode, prog, a)]
             prev = post
             continue
@@ -293,14 +349,26 @@ def oracle(sch, mode, progs, txs, io):
         if got != exp:
             missing, surplus = exp - got, got - exp
             key = "C08:event-multiset"
-            if any(p == "1" for (_, _, _, p) in missing):
+            detail = ""
+            lost_flows = sorted((s, i) for (s, ch, i, _) in missing if ch == "D" and sch.stores[s]["parent"]
+                                and not any(g[0] == s and g[2] == i for g in got))
+            if exp and not got:
+                key = "C08:event-missing"
+                detail = "NO entity event at all was delivered for the committed transaction; "
+            elif lost_flows:
+                s, i = lost_flows[0]
+                kids = children(sch, sch.root(s))
+                key = "C08:child-delete-event-missing"
+                detail = ("the committed delete of entity %s, an entity of child store %s (registered as number %d of the %d child stores %s of %s), "
+                          "produced no delete event on %s; " % (i, s, kids.index(s) + 1, len(kids), kids, sch.root(s), s))
+            elif any(p == "1" for (_, _, _, p) in missing):
                 key = "C08:parent-event-missing"
             elif missing and not surplus:
                 key = "C08:event-missing"
             elif surplus and not missing:
                 key = "C08:event-surplus"
-            out.append((key, "events of the committed transaction: missing %s surplus %s" % (
-                sorted(missing.elements())[:4], sorted(surplus.elements())[:4]), k))
+            out.append((key, "%sevents of the committed transaction: missing %s surplus %s%s" % (
+                detail, sorted(missing.elements())[:4], sorted(surplus.elements())[:4], note), k))
         # every registration style receives exactly the events of its change type
         want = Counter()
         for (s, ch, i, p), n in exp.items():
@@ -318,10 +386,42 @@ def oracle(sch, mode, progs, txs, io):
             out.append(("C08:listener-delivery-" + (style if style in ("c", "uc") else style[0]),
                         "deliveries per registration style differ from one per event: missing %s surplus %s" % (
                             sorted(missing.elements())[:4], sorted(surplus.elements())[:4]), k))
-        # the delivered state: final state (create/update), last state (delete) - decidable from the facts
-        # when a single operation of the transaction names the entity
+        # a registration naming several change types: exactly one notification per committed change on its store
+        # whose kind it names, none for the others (whatever the order of the types, sync or async)
         named = Counter(op.get("id") for op in tx["ops"] if op["kind"] in ("C", "UP", "D"))
         written = Counter(op.get("id") for op in tx["ops"] if op["kind"] in ("C", "UP"))
+        if regs and got == exp:
+            wantm, havem = Counter(), Counter()
+            for r, (style, store, types) in enumerate(regs):
+                for (s, ch, i, p), n in exp.items():
+                    if s == store and ch in types.upper():
+                        wantm[(r, i)] += n
+            for t in lm:
+                p = t.split(":")
+                havem[(int(p[1]), p[5])] += 1
+            if havem != wantm:
+                r, i = sorted(set((wantm - havem) | (havem - wantm)))[0]
+                changes = sorted(ch for (s, ch, j, _), n in exp.items() for _ in range(n) if s == regs[r][1] and j == i)
+                out.append(("C08:multi-type-listener-count",
+                            "the listener registered by %s was notified %d times about entity %s of store %s, expected %d (once per committed "
+                            "change of a registered kind; committed changes of that entity on the store: %s)%s" % (
+                                reg_text(regs[r]), havem[(r, i)], i, regs[r][1], wantm[(r, i)],
+                                ", ".join(CHANGE_WORD[c] for c in changes) or "none", note), k))
+            else:
+                for t in lm:
+                    p = t.split(":")
+                    r, hid, dg = int(p[1]), p[5], p[6]
+                    style, store, types = regs[r]
+                    chs = set(ch for (s, ch, j, _) in exp if s == store and j == hid and ch in types.upper())
+                    if style == "i" or named[hid] > 1 or len(chs) != 1 or ("D" in chs and written[hid] > 0):
+                        continue
+                    ref = (prev if "D" in chs else post).digest(sch, store, hid)
+                    if ref is not None and dg != ref:
+                        out.append(("C08:delivered-state", "the listener registered by %s received %s for the %s of %s, the database holds %s" % (
+                            reg_text(regs[r]), dg, CHANGE_WORD[list(chs)[0]], hid, ref), k))
+                        break
+        # the delivered state: final state (create/update), last state (delete) - decidable from the facts
+        # when a single operation of the transaction names the entity
         for t in ls:
             p = t.split(":")
             if p[1] not in STATE_STYLES:
@@ -382,7 +482,11 @@ def compare(a, b):
 def main(argv):
     c = vlib.Check(PID, argv)
     c.assumptions = ["bbolt runs the OnCommit handlers of a transaction exactly once, after a successful commit, and never for a rolled-back one (trusted; observed)",
-                     "one MutateContext per transaction (re-using a context across transactions is documented misuse)",
+                     "a MutateContext the caller keeps across transactions (also after a rollback) carries no commit / pre-commit actions: they stay "
+                     "registered on the context, so every later transaction would run them again; a function bbolt's Batch may run twice registers "
+                     "its actions before the call, not inside the function (bbolt: the function must be idempotent)",
+                     "a listener registration names every change kind at most once (EntityCreated together with EntityCreatedAsync asks for two "
+                     "notifications per create and is outside 'registered for that change type')",
                      "cascade deletes follow an acyclic store order (wf_events_b); a cascade cycle does not terminate (C04)",
                      "an Extended() child store regards every parent entity as its own: deleting a parent entity without extension data "
                      "notifies the extended store's listeners (design/C08.md (a))"]
@@ -438,13 +542,13 @@ def main(argv):
     for idx, (case, i, m) in enumerate(zip(cases, impl, modl)):
         if not case.strip():
             continue
-        mode, progs, plain = split_mode(case)
+        mode, progs, regs, plain = split_mode(case)
         sch, txs = storefam.split_case(plain)
         io = storefam.parse_obs(i)
         mo = storefam.parse_obs(m) if mode != "swl" else []
         ntx += len(io) if mode != "swl" else 0
         nev += sum(len(t["events"]) for t in io)
-        ndel += sum(1 for t in io for x in t["other"] if x.startswith("LS:"))
+        ndel += sum(1 for t in io for x in t["other"] if x.startswith("LS:") or x.startswith("LM:"))
         if any(t["commit"] and len(t["events"]) > 1 for t in io):
             distinct.add(case)
         if mode == "swl":
@@ -453,7 +557,7 @@ def main(argv):
             ntx += len(io)
             continue
         reported = False
-        for key, desc, k in oracle(sch, mode, progs, txs, io):
+        for key, desc, k in oracle(sch, mode, progs, regs, txs, io):
             c.violation(key, desc, dict(case=case, impl=i, model=m, tx=k, gen=dict(gen, index=idx)))
             reported = True
         if c.replay:
@@ -479,9 +583,14 @@ def main(argv):
     c.cov["disagreements_checked"] = len(disagreements)
     c.cov["rule"] = ("state-aware seeded histories (2-6 transactions x 1-3 operation groups: create incl. prerequisite fk targets, full and "
                      "field-checker update, delete incl. cascades, link ops, through parent, plain child and extended child stores; several changes "
-                     "of one entity per transaction; caller error 6%, failing pre-commit action 5%, veto 9%, blind operation 7%) over three schema "
+                     "of one entity per transaction; caller error 6%, failing pre-commit action 5%, veto 9%, blind operation 7%) over the shared three schema "
                      "wirings, through Db.Update, a Db.Batch stream and a stream whose caller swallows constraint vetoes and commits (a vetoed change must "
-                     "never be announced); 26 recording listeners per store (4 filtering styles x 3 change types x "
+                     "never be announced); five schema wirings (two of them with three child stores - plain and extended - under one parent: entities living in "
+                     "the 2nd / 3rd child store, deleted through parent, own or sibling store and by cascade); per history 3-7 listener registrations naming two "
+                     "or three change types in one call (4 styles, every order, sync / async entries); 18% of the Db.Update histories and 20% of the Db.Batch "
+                     "histories keep ONE MutateContext for (85% of) their transactions, 30% of those give up after their changes (rollback, then commits with the same "
+                     "context); 40% of the Db.Batch histories issue 70% of their calls together with 1-2 failing Db.Batch calls that bbolt coalesces (re-run of the "
+                     "innocent function with its context); 26 recording listeners per store (4 filtering styles x 3 change types x "
                      "sync/async, typed and untyped constraint), 1 tx-complete listener; per transaction a hook program: commit actions and pre-commit "
                      "actions (succeeding, failing, adding a commit action) registered on the context before Db.Update/Db.Batch is called (75% / 65%), at the "
                      "start and the end of the function (always) and inside 0-3 nested db.Update(ctx,..)/db.Batch(ctx,..) calls joining the running "
